@@ -180,6 +180,9 @@ def job_calls_access(chunk):
             t.check(env, ("call", "pick", (("loc", A),), ()), "pick-default", s)
             t.check(env, ("call", "dbl", (("bin", "add", ("loc", A), ("loc", B)),), ()), "dbl-expr", s)
             t.check(env, ("call", "total", (("loc", ("s", ("i", "l"))),), ()), "total", s)
+            # the callee sees positional and keyword arguments exactly as written (keyword order included)
+            t.check(env, ("call", "kw", (("loc", A), ("lit", x)), (("z", ("loc", B)), ("a", ("lit", y)), ("m", ("loc", A)))), "kw-order", s)
+            t.check(env, ("call", "kw", (), (("q", ("loc", A)), ("b", ("loc", B)))), "kw-order2", s)
     # item / attribute access, constant and computed keys, present and absent
     L = ("s", ("i", "l"))
     D = ("s", ("i", "d"))
@@ -294,6 +297,60 @@ def job_inplace(chunk):
     return {"evaluations": ev, "distinct": distinct, "issues": issues, "outcomes": {"inplace": outcomes}, "samples": samples}
 
 
+def job_inplace_parent(chunk):
+    """in-place operator on a location that has no expression of its own but ENCLOSES an expression-defined member, or is the
+    computed key of an expression-defined item: the old VALUE is combined with the operand, nothing is registered for it"""
+    np = _np()
+    import xdeps
+    ev = 0
+    issues = []
+    distinct = set()
+    for opname in chunk:
+        for case in ("computed-key", "array-parent", "dict-key-parent"):
+            for ov in (1, 2):
+                ev += 1
+                data = {"arr": np.array([1.0, 2.0, 3.0]), "x": 4.0, "i": 0, "tab": {0: 5.0, 1: 6.0, 2: 7.0, 3: 8.0}, "k": 1}
+                m = xdeps.Manager()
+                r = m.ref(data, "s")
+                prog = []
+                try:
+                    if case == "computed-key":
+                        r["tab"][r["i"]] = r["x"] + 40
+                        prog += ["s['tab'][s['i']] = s['x'] + 40", f"s['i'] {T.BIN_SYM[opname]}= {ov}"]
+                        tgt, old = "i", 0
+                    elif case == "dict-key-parent":
+                        r["tab"][r["k"] + 1] = r["x"] * 2
+                        prog += ["s['tab'][s['k'] + 1] = s['x'] * 2", f"s['k'] {T.BIN_SYM[opname]}= {ov}"]
+                        tgt, old = "k", 1
+                    else:
+                        r["arr"][1] = r["x"] * 3
+                        prog += ["s['arr'][1] = s['x'] * 3", f"s['arr'] {T.BIN_SYM[opname]}= {ov}"]
+                        tgt, old = "arr", np.array(data["arr"])
+                    want = E.outcome(lambda: T.BIN[opname](old, ov))
+
+                    def do():
+                        tmp = T.INPLACE[opname](r[tgt], ov)
+                        r[tgt] = tmp
+                        return data[tgt]
+                    got = E.outcome(do)
+                except Exception as e:  # noqa
+                    got, want = ("setup-" + type(e).__name__, None), ("ok", None)
+                distinct.add((opname, case, ov))
+                probs = []
+                if want[0] == "ok" and got[0] == "ok":
+                    if not T.same(got[1], want[1]):
+                        probs.append(f"{tgt} holds {vrepr(got[1])}, old value {T.BIN_SYM[opname]} operand is {vrepr(want[1])}")
+                    if r[tgt]._expr is not None:
+                        probs.append(f"a definition was registered for {tgt} (which had none): {r[tgt]._expr}")
+                elif want[0] != got[0] and not (want[0] == "ok" and got[0] in ("IndexError", "KeyError")):
+                    probs.append(f"outcome {got[0]}, Python gives {want[0]}")
+                if probs and len(issues) < 20:
+                    issues.append({"kind": "violation", "property": "C04", "finding": None, "config": {},
+                                   "what": f"in-place {T.BIN_SYM[opname]}= on a location without expression ({case}): " + "; ".join(probs),
+                                   "program": prog, "case": {"section": "inplace_parent", "op": opname, "case": case, "ov": ov}})
+    return {"evaluations": ev, "distinct": distinct, "issues": issues, "outcomes": {"inplace_parent": {"cases": ev}}, "samples": []}
+
+
 # ---------------------------------------------------------------- trees
 
 TREE_VALUES = [0, 7, -2.5, True]
@@ -370,13 +427,13 @@ def job_rounding(chunk):
 
 SECTIONS = {
     "binary": job_binary, "unary_builtin": job_unary_builtin, "calls_access": job_calls_access,
-    "inplace": job_inplace, "trees2": job_trees2, "trees3": job_trees3, "rounding": job_rounding,
+    "inplace": job_inplace, "trees2": job_trees2, "trees3": job_trees3, "rounding": job_rounding, "inplace_parent": job_inplace_parent,
 }
 
 
 def plan(tier, seed):
     jobs = []
-    secs = ["binary", "unary_builtin", "calls_access", "inplace", "trees2", "rounding"] + (["trees3"] if tier == "thorough" else [])
+    secs = ["binary", "unary_builtin", "calls_access", "inplace", "inplace_parent", "trees2", "rounding"] + (["trees3"] if tier == "thorough" else [])
     for s in secs:
         jobs.append({"name": s, "mode": "compiled", "hashseed": seed % 2 ** 32 if s == "binary" else 0,
                      "nproc": 6 if s in ("trees2", "trees3") else 3, "timeout": 3000,
@@ -397,6 +454,8 @@ def run_job(job):
         chunks = [[0]]
     elif sec == "inplace":
         chunks = [[k] for k in T.INPLACE]
+    elif sec == "inplace_parent":
+        chunks = [[k] for k in ("add", "sub", "mul", "floordiv", "pow")]
     elif sec == "rounding":
         chunks = [[op] for op in ROUND_OPS]
     elif sec == "trees2":
@@ -434,6 +493,10 @@ def replay(issue):
     np = _np()
     case = issue["case"]
     ns = {"array": np.array, "np": np, "nan": float("nan"), "inf": float("inf"), "float64": np.float64, "int64": np.int64}
+    if case.get("section") == "inplace_parent":
+        r = job_inplace_parent([case["op"]])
+        bad = [i for i in r["issues"] if i["case"] == case]
+        return {"still_fails": bool(bad), "what": bad[0]["what"] if bad else "ok"}
     if case.get("section") == "inplace":
         r = job_inplace([case["op"]])
         bad = [i for i in r["issues"] if i["case"] == case]
